@@ -5,6 +5,8 @@ From CV Require Proofs.ReportersP4 Proofs.ReportersP5 Proofs.Compose Proofs.Sche
 From Coq Require Import Lia.
 
 (* terminal output: at most one line per event; exactly one for a step result, a failed hook, a parser error *)
+(* [definitional] unfolds the model's own definition: a pinned reading of the model (it breaks when the model is edited),
+   not evidence for the property by itself — the model is tied to the code by the correspondence check *)
 Theorem C14_basic_one_line_per_result :
   forall e, (length (basic_line e) <= 1)%nat.
 Proof.
@@ -15,6 +17,8 @@ Proof.
   - destruct y; cbn; lia.
 Qed.
 
+(* [definitional] unfolds the model's own definition: a pinned reading of the model (it breaks when the model is edited),
+   not evidence for the property by itself — the model is tied to the code by the correspondence check *)
 Theorem C14_basic_result_has_its_line :
   forall f r s rt st y, y <> StStarted ->
     basic_line (EvScen f r s rt (ScStep st y)) = [RLStep (match y with StPassed => 1 | StFailed _ => 2 | _ => 3 end) false st] /\
@@ -59,6 +63,8 @@ Theorem C14_K14a_refuted :
 Proof. exists (fun _ => false), ltw_init, 1, None, 2, None, 3. cbn. discriminate. Qed.
 
 (* JUnit: classification of an attempt by its last relevant event *)
+(* [definitional] unfolds the model's own definition: a pinned reading of the model (it breaks when the model is edited),
+   not evidence for the property by itself — the model is tied to the code by the correspondence check *)
 Theorem C14_junit_classification :
   forall evs, junit_status evs =
     match find junit_relevant (rev evs) with
